@@ -527,7 +527,7 @@ class MultiportILVTMemory(BaseMultiportMemory):
             m.d.comb += [ilvt_read_ports[index].addr.eq(read_port.addr), ilvt_read_ports[index].en.eq(read_port.en)]
 
             read_en_bypass = Signal()
-            read_addr_bypass = Signal(self.shape, reset_less=True)
+            read_addr_bypass = Signal(read_port.addr.shape(), reset_less=True)
 
             m.d.sync += [read_en_bypass.eq(read_port.en), read_addr_bypass.eq(read_port.addr)]
 
